@@ -17,7 +17,31 @@ four tomography classes' generate_empi_dist / _dists / _dists_sequence):
 * history       same int seed => bitwise equal output after arbitrary
                 interleaved random activity; shared Generator advances and
                 gives different draws; different seeds give different output;
-* distribution  pooled counts vs n p (per-cell z and chi-square, fixed bounds).
+* distribution  pooled counts vs n p (per-cell z and chi-square, fixed bounds);
+* re-use        (history / combination steps, own RNG stream ctx.rng(H_RNG), so
+                the ordinary workload of a case is what it was) the statement
+                quantifies over histories: "a function of the seed and the
+                arguments only" holds for arguments, objects and results that
+                are used AGAIN.  Caller-owned probability arrays / data lists /
+                size lists re-used with new contents, a sibling vector of the
+                same size asked in turn, earlier results changed by the caller,
+                results read again after later calls; MultinomialDistribution /
+                Experiment / tomography objects asked for other things in
+                between (other schedule, other true object, reset_seed, other
+                entry points), reached through copy() / a pickle round trip, changed through the
+                public list / schedules setters (also on a copy, and set back),
+                built with non-default constructor options and custom schedule
+                lists, interleaved with a sibling object of the same class and
+                sizes, compared with a fresh twin.  The oracles are the
+                existing ones: same explicit seed => equal (discrete) output,
+                where the reference output comes from a fresh object / fresh
+                array of equal content; validity by the hooks on every call;
+                pooled counts against the Born rule of the reference model for
+                the content the object has NOW.  Keys of violations that only
+                a history step can show end in the step's name
+                (":re-used-object", ":via-copy", ":after-setter",
+                ":after-schedules-setter", ":interleaved-with-sibling", ":via-pickle",
+                ":re-used-array-new-contents", ":second-true-object", ...).
 
 Recorded but NOT verdicts: whether a seeded call touches np.random's global
 state, which bit generator an int seed means, what to_stream(None) returns,
@@ -25,6 +49,7 @@ whether the multinomial generators happen to be cumulative-consistent.
 """
 import copy
 import math
+import pickle
 
 import numpy as np
 
@@ -39,7 +64,10 @@ RULE = ("probability vectors with 2..16 outcomes of classes random / exact zero 
         "histories of 1-5 interleaved actions (np.random draws, np.random.seed, other seeded calls, unseeded quara calls, "
         "generator calls, Experiment(seed_data=k)); entry points of data_generator, MultinomialDistribution, Experiment and "
         "the four tomography types (1 qubit, qutrit, 2 qubits; random and computational-basis testers / true objects with "
-        "structurally zero probabilities). A case is distinct by (entry point, vector class, rounded vector or object "
+        "structurally zero probabilities); history steps in every inv / empi / mult / tomo / exp case: arrays and lists re-used "
+        "with new contents, sibling vectors / objects of the same size asked in turn, results re-read after later calls, "
+        "Experiment list and schedules setters (on the object and on its copy()), tomographies with non-default options and "
+        "custom schedule lists, a second true object, a fresh twin. A case is distinct by (entry point, vector class, rounded vector or object "
         "parameters, sample sizes, seed, history) and non-trivial when the vector has an exact zero / tiny entry / sum "
         "defect, or the stream is adversarial, or the history has at least one interleaved action, or the input is invalid")
 
@@ -64,7 +92,7 @@ REQUIRED_ORACLES = ["data.valid", "data.nonzero-probability", "inversion.interva
                     "history.same-seed", "history.different-seeds", "history.shared-generator-advances",
                     "history.shared-generator-differs", "to_stream.int-seed-same-stream", "dist.cell-z", "dist.chi2-ratio",
                     "multinomial.nonzero-probability", "multinomial.schedules-independent", "experiment.schedules-independent",
-                    "tomo.structural-zero"]
+                    "tomo.structural-zero", "history.re-used-object", "history.re-used-array", "history.retained-result"]
 MIN_EVALS = {"quick": 50000, "thorough": 500000}
 WATCHDOG = {"quick": 900, "thorough": 3600}
 ASSUMPTIONS = [
@@ -419,8 +447,8 @@ class Judge:
             self.ctx.count(f"{oracle}(recorded):{'consistent' if ok else 'independent-draws'}")
 
     # ------------------------------------------------------------- statistics
-    def distribution(self, label, counts, p, n):
-        """pooled counts vs n p : per-cell z (cells with n p >= 20) and chi-square"""
+    def distribution(self, label, counts, p, n, sfx=""):
+        """pooled counts vs n p : per-cell z (cells with n p >= 20) and chi-square; sfx = ":<history step>" or empty"""
         from scipy.stats import chi2
 
         ctx = self.ctx
@@ -439,7 +467,7 @@ class Judge:
             zs = np.abs(counts[cells] - E[cells]) / np.sqrt(var[cells])
             j = int(np.argmax(zs))
             z = float(zs[j])
-            ctx.num("dist.cell-z", z, Z_PASS, Z_FAIL, key=f"{label}:cell-frequency-off",
+            ctx.num("dist.cell-z", z, Z_PASS, Z_FAIL, key=f"{label}:cell-frequency-off{sfx}",
                     info={"p": p, "counts": counts, "n": n, "cell": int(cells[j]), "z": z})
             self.max_z = max(self.max_z, z)
         # deterministic cells (p == 1): counts must be n exactly -> covered by zero-probability oracles
@@ -456,7 +484,7 @@ class Judge:
         if df >= 1 and k >= 2:
             thr = float(chi2.isf(1e-12, df))
             ratio = stat / thr
-            ctx.num("dist.chi2-ratio", ratio, 1.0, 2.0, key=f"{label}:chi-square-off",
+            ctx.num("dist.chi2-ratio", ratio, 1.0, 2.0, key=f"{label}:chi-square-off{sfx}",
                     info={"p": p, "counts": counts, "n": n, "stat": stat, "df": df, "threshold_p1e-12": thr})
             self.max_chi_ratio = max(self.max_chi_ratio, ratio)
         return z
@@ -908,15 +936,16 @@ def interleave(ctx, rng, call, M, s):
     return acts
 
 
-def run_call(ctx, name, call, arg):
-    """(True, value) | (False, None); scipy rejections are counted, other exceptions are violations"""
+def run_call(ctx, name, call, arg, sfx=""):
+    """(True, value) | (False, None); scipy rejections are counted, other exceptions are violations
+    (sfx = ":<history step>" when the call belongs to one)"""
     ok, v = ctx.attempt(call, arg)
     if ok:
         return True, v
     if is_scipy_rejection(v):
         ctx.count(f"rejected-by-scipy:{name}")
     else:
-        ctx.violation(f"{name}:" + ctx.exc_key(v), {"arg": repr(arg)[:80], "exc": str(v)[:300]})
+        ctx.violation(f"{name}:" + ctx.exc_key(v) + sfx, {"arg": repr(arg)[:80], "exc": str(v)[:300]})
     return False, None
 
 
@@ -997,6 +1026,363 @@ def pick_atol(rng, cls):
     return None if rng.random() < 0.8 else 1e-8
 
 
+# ======================================================= history / combination steps
+#
+# "A function of the seed and the arguments only ... independent of earlier calls" is a statement about arguments,
+# objects and results that are used AGAIN.  The steps below re-use them the way a caller may (his own arrays and lists
+# with new contents, public setters, copy(), constructor options, several objects alive at once) and hand every answer
+# to the existing oracles.  The reference output of an equality verdict always comes from a fresh array / fresh object
+# of equal content, called with the same explicit int seed; the outputs compared are discrete (data, counts / n).
+
+H_RNG = 1  # ctx.rng(H_RNG): the steps' own stream, so the ordinary workload of a case draws what it drew before
+
+
+def pick_seed(rng):
+    return 0 if rng.random() < 0.15 else int(rng.integers(0, 2 ** 31))
+
+
+class Retained:
+    """results the driver keeps and reads again after later calls: what a call returned must not change afterwards
+    (a result that aliases a buffer of the library, or of a later result, would)"""
+
+    def __init__(self, ctx):
+        self.ctx = ctx
+        self.items = []
+
+    def keep(self, name, r):
+        self.items.append((name, r, digest(r)))
+
+    def keep_all(self, outs):
+        for name, (d, r) in outs.items():
+            if d is not None:
+                self.keep(name, r)
+
+    def reread(self):
+        for name, r, d in self.items:
+            self.ctx.truth("history.retained-result", digest(r) == d, key=f"{name}:retained-result-changed-by-later-calls")
+        self.items = []
+
+
+def ref_out(ctx, call, arg=None):
+    """(digest, value) of a reference call on fresh arguments; (None, None) when it raises - never judged here, the
+    ordinary workload judges the exceptions of first calls"""
+    ok, r = ctx.attempt(call, arg)
+    if not ok:
+        ctx.count("history-step:reference-call-raised")
+        return None, None
+    return digest(r), r
+
+
+def expect_same(ctx, name, call, arg, d_ref, step, what="output-depends-on-history", info=None, oracle="history.re-used-array"):
+    """the call must reproduce the reference output (digest d_ref); an exception where the reference call returned
+    is a violation too"""
+    if d_ref is None:
+        ctx.skip(oracle)
+        return None
+    ok, r = ctx.attempt(call, arg)
+    if not ok:
+        if is_scipy_rejection(r):
+            ctx.count(f"rejected-by-scipy:{name}")
+        else:
+            ctx.violation(f"{name}:{ctx.exc_key(r)}:{step}", dict(info or {}, exc=str(r)[:300]))
+        return None
+    ctx.truth(oracle, digest(r) == d_ref, key=f"{name}:int-seed:{what}:{step}", info=info)
+    return r
+
+
+def outputs(ctx, calls, s):
+    """{name: (digest, result) | (None, exception)} of the calls {name: seed -> result} with the explicit seed s"""
+    out = {}
+    for name, call in calls.items():
+        ok, r = ctx.attempt(call, s)
+        out[name] = (digest(r), r) if ok else (None, r)
+    return out
+
+
+def compare_outputs(ctx, used, reference, step, what="output-depends-on-history", info=None):
+    """entry point by entry point: the object under a history step against the reference outputs"""
+    oracle = "history.re-used-object"
+    for name, (d_ref, _) in reference.items():
+        d_u, r_u = used[name]
+        if d_ref is None:
+            ctx.skip(oracle)
+            ctx.count("history-step:reference-call-raised")
+            continue
+        if d_u is None:
+            if is_scipy_rejection(r_u):
+                ctx.count(f"rejected-by-scipy:{name}")
+            else:
+                ctx.violation(f"{name}:{ctx.exc_key(r_u)}:{step}", dict(info or {}, exc=str(r_u)[:300]))
+            continue
+        ctx.truth(oracle, d_u == d_ref, key=f"{name}:int-seed:{what}:{step}", info=info)
+
+
+def sibling_vector(rng, p):
+    """same length, the same entries in another order (zeros and tiny entries move)"""
+    p = np.asarray(p, dtype=np.float64)
+    if rng.random() < 0.5 or len(p) < 3:
+        return np.ascontiguousarray(p[::-1])
+    return np.ascontiguousarray(np.roll(p, int(rng.integers(1, len(p)))))
+
+
+def hist_data(ctx, dg, rng, p, N, atol):
+    """generate_data_from_prob_dist: one caller-owned array with changing contents, a sibling vector in turn"""
+    name = "generate_data_from_prob_dist"
+    Nh = min(N, 150)
+    s = pick_seed(rng)
+    q = sibling_vector(rng, p)
+    keep = Retained(ctx)
+
+    def gen(arr):
+        return lambda sg: dg.generate_data_from_prob_dist(arr, Nh, sg, atol)
+
+    dA, rA = ref_out(ctx, gen(p.copy()), s)
+    dB, rB = ref_out(ctx, gen(q.copy()), s)
+    if dA is None or dB is None:
+        ctx.count("history-step:skipped:" + name)
+        return
+    keep.keep(name, rA)
+    keep.keep(name, rB)
+    info = {"p": p, "sibling": q, "N": Nh, "seed": s, "atol": atol}
+    fresh = "output-differs-from-fresh-array"
+    buf = p.copy()
+    expect_same(ctx, name, gen(buf), s, dA, "re-used-array", info=info)
+    buf[:] = q  # the caller's own array, new contents
+    expect_same(ctx, name, gen(buf), s, dB, "re-used-array-new-contents", what=fresh, info=info)
+    ctx.attempt(gen(buf), RecGen(int(rng.integers(0, 2 ** 31))))  # hooks: every datum against the intervals of the contents NOW
+    buf[:] = p
+    expect_same(ctx, name, gen(buf), s, dA, "re-used-array-restored-contents", what=fresh, info=info)
+    ctx.attempt(gen(buf), RecGen(int(rng.integers(0, 2 ** 31))))
+    for _ in range(2):
+        expect_same(ctx, name, gen(q.copy()), s, dB, "interleaved-with-sibling", info=info)
+        expect_same(ctx, name, gen(p.copy()), s, dA, "interleaved-with-sibling", info=info)
+    ok, r = ctx.attempt(gen(p.copy()), s)  # what a call returned belongs to the caller: changing it must not reach later calls
+    if ok and isinstance(r, list):
+        r.reverse()
+        r.append(-1)
+    expect_same(ctx, name, gen(p.copy()), s, dA, "after-caller-changed-earlier-result", info=info)
+    keep.reread()
+
+
+def hist_dataset(ctx, dg, rng, p, N):
+    """generate_dataset_from_prob_dists: the caller's lists (vectors, sizes, seeds) re-used with new contents"""
+    name = "generate_dataset_from_prob_dists"
+    Nh = min(N, 150)
+    s = pick_seed(rng)
+    q = sibling_vector(rng, p)
+    seeds = [s, s + 5]
+    keep = Retained(ctx)
+
+    def ds(L, Ns, sd):
+        return lambda _: dg.generate_dataset_from_prob_dists(L, Ns, sd)
+
+    d1, r1 = ref_out(ctx, ds([p.copy(), q.copy()], [Nh, 7], list(seeds)))
+    d2, r2 = ref_out(ctx, ds([q.copy(), p.copy()], [7, Nh], list(seeds)))
+    if d1 is None or d2 is None:
+        ctx.count("history-step:skipped:" + name)
+        return
+    keep.keep(name, r1)
+    keep.keep(name, r2)
+    info = {"p": p, "sibling": q, "seeds": seeds}
+    fresh = "output-differs-from-fresh-lists"
+    L, Ns, sd = [p.copy(), q.copy()], [Nh, 7], list(seeds)
+    expect_same(ctx, name, ds(L, Ns, sd), None, d1, "re-used-lists", info=info)
+    L.reverse()
+    Ns.reverse()
+    expect_same(ctx, name, ds(L, Ns, sd), None, d2, "re-used-lists-new-contents", what=fresh, info=info)
+    L[0][:] = p
+    L[1][:] = q
+    Ns.reverse()
+    expect_same(ctx, name, ds(L, Ns, sd), None, d1, "re-used-arrays-new-contents", what=fresh, info=info)
+    keep.reread()
+
+
+def spoil_empi_result(r):
+    """the caller overwrites the arrays of a result he was given, and empties the list"""
+    try:
+        for t in r:
+            for e in (t if isinstance(t, list) else [t]):
+                if isinstance(e, tuple) and len(e) == 2 and isinstance(e[1], np.ndarray) and e[1].flags.writeable:
+                    e[1][...] = 1.0 / max(1, e[1].size)
+        if isinstance(r, list):
+            r.clear()
+    except Exception:
+        pass
+
+
+def hist_multinomial_seq(ctx, dg, rng, p, ns):
+    """generate_empi_dist_sequence_from_prob_dist: array and size list re-used with new contents, sibling in turn"""
+    name = "generate_empi_dist_sequence_from_prob_dist"
+    s = pick_seed(rng)
+    q = sibling_vector(rng, p)
+    ns2 = [int(x) for x in rng.choice(NUM_SUM_CHOICES, size=len(ns))]
+    keep = Retained(ctx)
+
+    def gen(arr, sizes):
+        return lambda sg: dg.generate_empi_dist_sequence_from_prob_dist(arr, sizes, sg)
+
+    dA, rA = ref_out(ctx, gen(p.copy(), list(ns)), s)
+    dB, rB = ref_out(ctx, gen(q.copy(), list(ns2)), s)
+    if dA is None or dB is None:
+        ctx.count("history-step:skipped:" + name)
+        return
+    keep.keep(name, rA)
+    keep.keep(name, rB)
+    info = {"p": p, "sibling": q, "num_sums": ns, "sibling_num_sums": ns2, "seed": s}
+    fresh = "output-differs-from-fresh-array"
+    buf, sizes = p.copy(), list(ns)
+    expect_same(ctx, name, gen(buf, sizes), s, dA, "re-used-array", info=info)
+    buf[:] = q
+    sizes[:] = ns2
+    expect_same(ctx, name, gen(buf, sizes), s, dB, "re-used-array-new-contents", what=fresh, info=info)
+    buf[:] = p
+    sizes[:] = ns
+    expect_same(ctx, name, gen(buf, sizes), s, dA, "re-used-array-restored-contents", what=fresh, info=info)
+    for _ in range(2):
+        expect_same(ctx, name, gen(q.copy(), list(ns2)), s, dB, "interleaved-with-sibling", info=info)
+        expect_same(ctx, name, gen(p.copy(), list(ns)), s, dA, "interleaved-with-sibling", info=info)
+    ok, r = ctx.attempt(gen(p.copy(), list(ns)), s)
+    if ok:
+        spoil_empi_result(r)
+    expect_same(ctx, name, gen(p.copy(), list(ns)), s, dA, "after-caller-changed-earlier-result", info=info)
+    keep.reread()
+
+
+def hist_multinomial_seqs(ctx, dg, rng, ps, nss):
+    """generate_empi_dists_sequence_from_prob_dists: the caller's lists re-used in another order"""
+    name = "generate_empi_dists_sequence_from_prob_dists"
+    s = pick_seed(rng)
+    ps, nss = [x.copy() for x in ps], [list(x) for x in nss]
+    if len(ps) == 1:
+        ps.append(sibling_vector(rng, ps[0]))
+        nss.append(list(nss[0]))
+    keep = Retained(ctx)
+
+    def gen(L, S):
+        return lambda sg: dg.generate_empi_dists_sequence_from_prob_dists(L, S, sg)
+
+    d1, r1 = ref_out(ctx, gen([x.copy() for x in ps], [list(x) for x in nss]), s)
+    d2, r2 = ref_out(ctx, gen([x.copy() for x in reversed(ps)], [list(x) for x in reversed(nss)]), s)
+    if d1 is None or d2 is None:
+        ctx.count("history-step:skipped:" + name)
+        return
+    keep.keep(name, r1)
+    keep.keep(name, r2)
+    info = {"num_sums": nss, "seed": s}
+    fresh = "output-differs-from-fresh-lists"
+    L, S = [x.copy() for x in ps], [list(x) for x in nss]
+    expect_same(ctx, name, gen(L, S), s, d1, "re-used-lists", info=info)
+    L.reverse()
+    S.reverse()
+    expect_same(ctx, name, gen(L, S), s, d2, "re-used-lists-new-contents", what=fresh, info=info)
+    ok, r = ctx.attempt(gen(L, S), s)
+    if ok:
+        spoil_empi_result(r)
+    L.reverse()
+    S.reverse()
+    expect_same(ctx, name, gen(L, S), s, d1, "re-used-lists-restored-contents", what=fresh, info=info)
+    keep.reread()
+
+
+def hist_sampling(ctx, M, rng, p, dist, num, size):
+    """MultinomialDistribution objects (the used one, a sibling of the same size, objects with a non-default shape /
+    eps_zero, a marginal obtained from one of them, a fresh twin) asked in turn; the hooks judge every answer
+    against the object's own ps, the driver demands that each object reproduces its own first answer"""
+    name = "MultinomialDistribution.execute_random_sampling"
+    MD = M.md.MultinomialDistribution
+    s = pick_seed(rng)
+    keep = Retained(ctx)
+    m = len(p)
+    objs = [("re-used-object", dist)]
+    ok, o = ctx.attempt(MD, sibling_vector(rng, p).copy())
+    if ok:
+        objs.append(("sibling", o))
+    ok, o = ctx.attempt(MD, p.copy(), None, float(rng.choice([1e-3, 1e-2, 0.05])))
+    if ok:
+        objs.append(("non-default-eps_zero", o))
+    divs = [a for a in range(2, m) if m % a == 0]
+    if divs:
+        a = int(rng.choice(divs))
+        ok, o = ctx.attempt(MD, p.copy(), (a, m // a))
+        if ok:
+            objs.append(("non-default-shape", o))
+            ok, o2 = ctx.attempt(o.marginalize, [int(rng.integers(0, 2))])
+            if ok:
+                objs.append(("marginal", o2))
+
+    def call(o, n=num, k=size):
+        return lambda sg: o.execute_random_sampling(n, k, sg)
+
+    first = {}
+    for tag, o in objs:
+        first[tag] = ref_out(ctx, call(o), s)
+        if first[tag][0] is not None:
+            keep.keep(name, first[tag][1])
+    info = {"p": p, "num": num, "size": size, "seed": s}
+    for rnd in range(2):
+        order = list(rng.permutation(len(objs)))
+        for k in order:
+            tag, o = objs[int(k)]
+            ctx.attempt(call(o, int(rng.choice([1, 10, 1000])), int(rng.choice([1, 3]))), int(rng.integers(0, 2 ** 31)))
+            step = tag if tag == "re-used-object" else f"{tag}:second-call"
+            r = expect_same(ctx, name, call(o), s, first[tag][0], step + ":interleaved-with-sibling", info=dict(info, object=tag),
+                            oracle="history.re-used-object")
+            if isinstance(r, list):  # the caller changes what he was given: must not reach the later calls
+                for c in r:
+                    if isinstance(c, np.ndarray) and c.flags.writeable:
+                        c[...] = 0
+                r.clear()
+                expect_same(ctx, name, call(o), s, first[tag][0], step + ":after-caller-changed-earlier-result", info=dict(info, object=tag),
+                            oracle="history.re-used-object")
+    ok, twin = ctx.attempt(MD, p.copy())
+    if ok:
+        expect_same(ctx, name, call(twin), s, first["re-used-object"][0], "fresh-twin", what="re-used-object-differs-from-fresh-object",
+                    info=info, oracle="history.re-used-object")
+    keep.reread()
+
+
+def hist_calc_empi(ctx, dg, rng, m, data, ns):
+    """calc_empi_dist_sequence (valid input): the caller's data list and num_sums list re-used with new contents, made
+    longer, then made invalid; a sibling data list of the same length; the hooks judge every call against the
+    reference count of the arguments it was given (and demand the raise for the invalid one)"""
+    name = "calc_empi_dist_sequence"
+    calc = dg.calc_empi_dist_sequence
+    ok, r1 = ctx.attempt(calc, m, list(data), list(ns))
+    if not ok:
+        return
+    keep = Retained(ctx)
+    d1 = digest(r1)
+    keep.keep(name, r1)
+    data2 = [int(x) for x in rng.integers(0, m, len(data))]
+    ok, r2 = ctx.attempt(calc, m, list(data2), list(ns))
+    if not ok:
+        return
+    keep.keep(name, r2)
+    buf, nsb = list(data), list(ns)
+    ok, r = ctx.attempt(calc, m, buf, nsb)
+    ctx.truth("history.re-used-array", ok and digest(r) == d1, key=f"{name}:second-call-differs:re-used-list")
+    buf[:] = data2
+    ok, r3 = ctx.attempt(calc, m, buf, nsb)
+    ctx.truth("history.re-used-array", ok and digest(r3) == digest(r2), key=f"{name}:output-differs-from-fresh-list:re-used-list-new-contents",
+              info={"m": m, "data": data2, "num_sums": ns})
+    if ok:
+        keep.keep(name, r3)
+    buf.extend(int(x) for x in rng.integers(0, m, int(rng.integers(1, 20))))
+    nsb.append(len(buf))
+    ok, r4 = ctx.attempt(calc, m, buf, nsb)
+    if ok:
+        keep.keep(name, r4)
+    ok, r5 = ctx.attempt(calc, m, list(data), list(ns))
+    if ok:
+        spoil_empi_result(r5)
+    ok, r6 = ctx.attempt(calc, m, list(data), list(ns))
+    ctx.truth("history.re-used-array", ok and digest(r6) == d1, key=f"{name}:second-call-differs:after-caller-changed-earlier-result")
+    # now invalid inside every prefix (too large or negative): must raise (hook)
+    buf[int(rng.integers(0, nsb[0]))] = m + int(rng.integers(0, 3)) if rng.random() < 0.5 else -int(rng.integers(1, m + 1))
+    ctx.attempt(calc, m, buf, nsb)
+    keep.reread()
+
+
 # ------------------------------------------------------------ data_generator
 
 
@@ -1017,6 +1403,7 @@ def shard_inv(ctx, hs, J, M):
             run_call(ctx, name, lambda g: dg.generate_data_from_prob_dist(p, max(N, 200), g, atol), RecGen(int(rng.integers(0, 2 ** 31))))
             acts = history_check(ctx, name, lambda sg: dg.generate_data_from_prob_dist(p, N, sg, atol), rng, M,
                                  log10_collision_data(p, N), info={"class": cls, "p": p, "N": N, "atol": atol, "draws": N})
+            hist_data(ctx, dg, ctx.rng(H_RNG), p, N, atol)
             ctx.nontrivial("inv", name, cls, p, N, repr(atol), acts)
         else:
             name = "generate_dataset_from_prob_dists"
@@ -1040,6 +1427,7 @@ def shard_inv(ctx, hs, J, M):
             ctx.truth("dataset.length-mismatch-raises", not ok, key=f"{name}:accepts-mismatched-list-lengths")
             ok, v = ctx.attempt(dg.generate_dataset_from_prob_dists, ps, Ns, [1] * (k + 1))
             ctx.truth("dataset.length-mismatch-raises", not ok, key=f"{name}:accepts-mismatched-seed-list")
+            hist_dataset(ctx, dg, ctx.rng(H_RNG), p, N)
             ctx.nontrivial("inv", name, cls, ps, Ns, acts)
     hs.require(["data_generator.generate_data_from_prob_dist", "number_util.to_stream"])
 
@@ -1128,6 +1516,8 @@ def shard_empi(ctx, hs, J, M):
             if i < 3:
                 ctx.sample({"entry": "calc_empi_dist_sequence", "class": cls, "m": m, "data": data, "num_sums": ns})
             ctx.attempt(dg.calc_empi_dist_sequence, m, data, ns)
+            if cls in ("valid", "valid-full"):
+                hist_calc_empi(ctx, dg, ctx.rng(H_RNG), m, data, ns)
             ctx.nontrivial("empi", cls, m, data, ns)
         else:
             k = int(rng.integers(1, 4))
@@ -1161,6 +1551,7 @@ def shard_mult(ctx, hs, J, M):
             name = "generate_empi_dist_sequence_from_prob_dist"
             acts = history_check(ctx, name, lambda sg: dg.generate_empi_dist_sequence_from_prob_dist(p, ns, sg), rng, M,
                                  log10_collision_counts([(n, p) for n in ns]), info={"class": cls, "p": p, "num_sums": ns})
+            hist_multinomial_seq(ctx, dg, ctx.rng(H_RNG), p, ns)
             ctx.nontrivial("mult", name, cls, p, ns, acts)
         elif entry == "seqs":
             name = "generate_empi_dists_sequence_from_prob_dists"
@@ -1180,6 +1571,7 @@ def shard_mult(ctx, hs, J, M):
                 if ok:
                     ctx.truth("multinomial.schedules-independent", digest(r[0]) != digest(r[1]),
                               key=f"{name}:int-seed:identical-draws-across-schedules", info={"p": p})
+            hist_multinomial_seqs(ctx, dg, ctx.rng(H_RNG), ps, nss)
             ctx.nontrivial("mult", name, cls, ps, nss, acts)
         else:
             name = "MultinomialDistribution.execute_random_sampling"
@@ -1191,6 +1583,7 @@ def shard_mult(ctx, hs, J, M):
             size = int(rng.choice([1, 2, 5, 20]))
             acts = history_check(ctx, name, lambda sg: dist.execute_random_sampling(num, size, sg), rng, M,
                                  log10_collision_counts([(num, np.array(dist.ps))] * size), info={"class": cls, "p": p, "num": num, "size": size})
+            hist_sampling(ctx, M, ctx.rng(H_RNG), p, dist, num, size)
             ctx.nontrivial("mult", name, cls, p, num, size, acts)
     hs.require(["data_generator.generate_empi_dist_sequence_from_prob_dist", "data_generator.generate_empi_dists_sequence_from_prob_dists",
                 "MultinomialDistribution.execute_random_sampling"])
@@ -1308,20 +1701,381 @@ def ref_probs(ttype, schedule, ops):
     return [ref.born(ms, rho)]
 
 
-def build_tomo(M, ttype, c_sys, ops, rng):
-    states = [gen.make_state(c_sys, r) for r in ops["states"]]
-    povms = [gen.make_povm(c_sys, ms) for ms in ops["povms"]]
+# ------------------------------------------- history steps: experiment / tomography
+
+
+def proj_povm(rng, d, m):
+    """m-outcome projective measurement onto groups of computational levels (padded with zero operators)"""
+    groups = np.array_split(rng.permutation(d), min(m, d))
+    pm = [sum(comp_proj(d, int(k)) for k in g) for g in groups]
+    while len(pm) < m:
+        pm.append(np.zeros((d, d), dtype=np.complex128))
+    return pm
+
+
+def rival_ops(rng, ops, testers=True, true=True):
+    """operators of the same sizes as ops (numbers of states / POVMs / outcomes / Kraus sets) with other values:
+    testers and / or true objects are replaced"""
+    d, structured, m_out, m_mp = ops["d"], ops["structured"], ops["m_out"], ops["m_mp"]
+    o = dict(ops)
+    if testers:
+        states = [ref.rand_density(d, rng, 1 if rng.random() < 0.5 else None) for _ in ops["states"]]
+        povms = [ref.rand_povm(d, len(pm), rng) for pm in ops["povms"]]
+        if structured:
+            perm = rng.permutation(d)
+            for k in range(min(d, len(states))):
+                states[k] = comp_proj(d, int(perm[k]))
+            povms[0] = proj_povm(rng, d, len(ops["povms"][0]))
+        o["states"], o["povms"] = states, povms
+    if true:
+        if structured:
+            o["true_state"] = comp_proj(d, int(rng.integers(0, d)))
+            o["true_povm"] = proj_povm(rng, d, m_out)
+            U = np.zeros((d, d), dtype=np.complex128)
+            for a, b in enumerate(rng.permutation(d)):
+                U[int(b), a] = 1.0
+            o["true_gate"] = [U]
+            g2 = np.array_split(rng.permutation(d), m_mp)
+            o["true_mprocess"] = [[sum(comp_proj(d, int(k)) for k in g)] for g in g2]
+        else:
+            o["true_state"] = ref.rand_density(d, rng, 1 if rng.random() < 0.3 else None)
+            o["true_povm"] = ref.rand_povm(d, m_out, rng)
+            o["true_gate"] = ref.rand_kraus(d, int(rng.integers(1, 3)), rng)
+            o["true_mprocess"] = ref.rand_instrument(d, m_mp, rng)
+    return o
+
+
+def exp_objects(c_sys, ops, rng=None):
+    """the four member lists of an Experiment; with rng every second object is reached through copy()"""
+    o = {"states": [gen.make_state(c_sys, r) for r in ops["states"]], "povms": [gen.make_povm(c_sys, ms) for ms in ops["povms"]],
+         "gates": [gen.make_gate(c_sys, kraus=ops["true_gate"])], "mprocesses": [gen.make_mprocess(c_sys, kraus_sets=ops["true_mprocess"])]}
+    if rng is not None:
+        o = {k: [x.copy() if rng.random() < 0.5 else x for x in v] for k, v in o.items()}
+    return o
+
+
+OPS_KEY = {"states": "states", "povms": "povms", "gates": "true_gate", "mprocesses": "true_mprocess"}
+
+
+def exp_ref_cands(schedules, ops):
+    """per schedule the candidate reference outcome distributions (Born rule; both flattening orders of the
+    (measurement-process outcome, POVM outcome) table, which the statement does not fix)"""
+    out = []
+    for sc in schedules:
+        idx = {k: j for k, j in sc}
+        rho = ops["states"][idx["state"]]
+        ms = ops["povms"][idx["povm"]]
+        if "mprocess" in idx:
+            P = np.array([[np.trace(mm @ ref.kraus_map(ks)(rho)).real for mm in ms] for ks in ops["true_mprocess"]])
+            out.append([P.reshape(-1), P.T.reshape(-1)])
+        elif "gate" in idx:
+            out.append([ref.born(ms, ref.kraus_map(ops["true_gate"])(rho))])
+        else:
+            out.append([ref.born(ms, rho)])
+    return out
+
+
+def judge_counts(ctx, J, base, sfx, c, cands, N, structured):
+    """counts of one schedule against the closest candidate reference distribution; keys = base + ':what' + sfx"""
+    cands = [np.clip(np.asarray(q, dtype=np.float64), 0.0, None) for q in cands if len(q) == len(c)]
+    if not cands:
+        ctx.truth("tomo.outcome-count", False, key=f"{base}:number-of-outcomes-differs-from-reference{sfx}", info={"got": len(c)})
+        return
+    ctx.truth("tomo.outcome-count", True)
+    q = min(cands, key=lambda q: float(np.sum(np.abs(c / N - q))))
+    J.distribution(f"distribution:{base}", c, q, N, sfx=sfx)
+    if structured and np.any(q <= 1e-14):
+        ctx.truth("tomo.structural-zero", int(c[q <= 1e-14].sum()) == 0, key=f"{base}:structurally-zero-outcome-counted{sfx}",
+                  info={"reference": q, "counts": c})
+
+
+def judge_exp_distribution(ctx, J, exp, cands, structured, s, step):
+    """one big multinomial draw per schedule of an Experiment under a history step, against the Born rule of the
+    reference model for the content the object has now"""
+    base, sfx, N = "Experiment.generate_empi_dists_sequence", f":{step}", DRAWS_DIST
+    n_sched = len(cands)
+    ok, r = run_call(ctx, base, lambda sg: exp.generate_empi_dists_sequence([[N] * n_sched], sg), s, sfx=sfx)
+    if not ok:
+        return
+    if not (isinstance(r, list) and len(r) == n_sched):
+        ctx.truth("empi.lists-shape", False, key=f"{base}:wrong-number-of-sequences{sfx}")
+        return
+    for cs, seq in zip(cands, r):
+        if not (isinstance(seq, list) and len(seq) == 1 and isinstance(seq[0], tuple) and len(seq[0]) == 2):
+            continue
+        why, c = counts_of(seq[0][0], seq[0][1])
+        if why is None:
+            judge_counts(ctx, J, base, sfx, c, cs, N, structured)
+
+
+def exp_calls(e, j):
+    n = len(e.schedules)
+    return {"Experiment.generate_data": lambda sg: e.generate_data(j % n, 80, sg),
+            "Experiment.generate_dataset": lambda sg: e.generate_dataset([40] * n, sg),
+            "Experiment.generate_empi_dist_sequence": lambda sg: e.generate_empi_dist_sequence(j % n, [100, 10 ** 4, 10 ** 6], sg),
+            "Experiment.generate_empi_dists_sequence": lambda sg: e.generate_empi_dists_sequence([[10 ** 3] * n, [10 ** 6] * n], sg)}
+
+
+def hist_exp(ctx, hs, J, M, rng, c_sys, ops, objs, exp, schedules, structured, j):
+    """one Experiment object through: other requests, copy(), a sibling of the same sizes asked in turn, member-list
+    setters on the copy and on the object, the schedules setter, everything set back"""
+    s = pick_seed(rng)
+    keep = Retained(ctx)
+    n_sched = len(schedules)
+    info = {"schedules": schedules, "seed": s, "schedule_index": j}
+    fresh_what = "output-differs-from-fresh-object"
+
+    def out(e):
+        return outputs(ctx, exp_calls(e, j), s)
+
+    def new_exp(sched, o):
+        with hs.paused():
+            return ctx.attempt(M.ex.Experiment, schedules=[list(x) for x in sched], states=list(o["states"]), povms=list(o["povms"]),
+                               gates=list(o["gates"]), mprocesses=list(o["mprocesses"]))
+
+    def set_lists(e, kinds, o):
+        for k in kinds:
+            ok, v = ctx.attempt(setattr, e, k, list(o[k]))
+            if not ok:
+                ctx.count(f"history-step:Experiment.{k}-setter-raised")  # not this property's business
+                return False
+        return True
+
+    base = out(exp)
+    keep.keep_all(base)
+    # (a) the same object asked for other things in between
+    j2 = (j + 1) % n_sched
+    ctx.attempt(exp.generate_data, j2, 50, int(rng.integers(0, 2 ** 31)))
+    ctx.attempt(exp.generate_empi_dist_sequence, j2, [10, 1000], None)
+    ctx.attempt(exp.reset_seed_data, int(rng.integers(0, 2 ** 31)))
+    ctx.attempt(exp.generate_dataset, [30] * n_sched, np.random.Generator(np.random.PCG64(int(rng.integers(0, 2 ** 31)))))
+    ctx.attempt(exp.calc_prob_dists)
+    ctx.attempt(exp.generate_empi_dists_sequence, [[7] * n_sched], None)
+    compare_outputs(ctx, out(exp), base, "re-used-object", info=info)
+    # (b) copy()
+    ok, exp_c = ctx.attempt(exp.copy)
+    if not ok:
+        ctx.count("history-step:Experiment.copy-raised")
+        exp_c = None
+    else:
+        compare_outputs(ctx, out(exp_c), base, "via-copy", what="output-differs-from-original", info=info)
+    ok, clone = ctx.attempt(lambda: pickle.loads(pickle.dumps(exp)))
+    if ok:
+        compare_outputs(ctx, out(clone), base, "via-pickle", what="output-differs-from-original", info=info)
+    else:
+        ctx.count("history-step:pickle-raised")
+    # (c) a sibling: same schedules, same numbers of members, other operators (every second object through copy())
+    ops2 = rival_ops(rng, ops)
+    with hs.paused():
+        objs2 = exp_objects(c_sys, ops2, rng)
+    ok, rival = new_exp(schedules, objs2)
+    if not ok:
+        ctx.count("history-step:sibling-construction-failed")
+        keep.reread()
+        return
+    rb = out(rival)
+    keep.keep_all(rb)
+    judge_exp_distribution(ctx, J, rival, exp_ref_cands(schedules, ops2), structured, s, "sibling-experiment")
+    compare_outputs(ctx, out(exp), base, "interleaved-with-sibling", info=info)
+    compare_outputs(ctx, out(rival), rb, "sibling:interleaved-with-first", info=info)
+    kinds = ["states", "povms", "gates", "mprocesses"]
+    if exp_c is not None:
+        compare_outputs(ctx, out(exp_c), base, "via-copy:interleaved-with-sibling", what="output-differs-from-original", info=info)
+        # (d) public setters on the copy: a random non-empty subset of its member lists is replaced by the sibling's
+        sub = [k for k in kinds if rng.random() < 0.5] or [kinds[int(rng.integers(0, 4))]]
+        mixed_objs, mixed_ops = dict(objs), dict(ops)
+        for k in sub:
+            mixed_objs[k], mixed_ops[OPS_KEY[k]] = objs2[k], ops2[OPS_KEY[k]]
+        if set_lists(exp_c, sub, objs2):
+            ok, fresh = new_exp(schedules, mixed_objs)
+            if ok:
+                compare_outputs(ctx, out(exp_c), out(fresh), "after-setter", what=fresh_what, info=dict(info, replaced=sub))
+            judge_exp_distribution(ctx, J, exp_c, exp_ref_cands(schedules, mixed_ops), structured, s, "after-setter")
+            compare_outputs(ctx, out(exp), base, "after-setter-on-copy", info=dict(info, replaced=sub))
+    # (e) setters on the object itself: all four lists (content now equal to the sibling's), then another schedule list
+    if set_lists(exp, kinds, objs2):
+        compare_outputs(ctx, out(exp), rb, "after-setter", what=fresh_what, info=dict(info, replaced=kinds))
+        k = int(rng.integers(1, n_sched)) if n_sched > 1 else 0
+        sched2 = schedules[k:] + schedules[:k]
+        if len(sched2) > 1 and rng.random() < 0.5:
+            sched2 = sched2[:-1]
+        if rng.random() < 0.3:
+            sched2 = sched2 + [sched2[0]]
+        ok, v = ctx.attempt(setattr, exp, "schedules", [list(x) for x in sched2])
+        if ok:
+            ok, fresh2 = new_exp(sched2, objs2)
+            if ok:
+                compare_outputs(ctx, out(exp), out(fresh2), "after-schedules-setter", what=fresh_what, info=dict(info, new_schedules=sched2))
+            judge_exp_distribution(ctx, J, exp, exp_ref_cands(sched2, ops2), structured, s, "after-schedules-setter")
+        else:
+            ctx.count("history-step:Experiment.schedules-setter-raised")  # not this property's business
+        # (f) everything set back
+        ok, v = ctx.attempt(setattr, exp, "schedules", [list(x) for x in schedules])
+        if ok and set_lists(exp, kinds, objs):
+            compare_outputs(ctx, out(exp), base, "after-setters-restored", info=info)
+    keep.reread()
+
+
+def tomo_options(rng):
+    """the options of the ordinary workload (same draws as ever)"""
     on = bool(rng.random() < 0.5)
     sd = None if rng.random() < 0.6 else int(rng.integers(0, 2 ** 31))
+    return {"on_para_eq_constraint": on, "seed_data": sd}
+
+
+def all_schedules(ttype, ops):
+    ns, npv = len(ops["states"]), len(ops["povms"])
     if ttype == "qst":
-        return M.StandardQst(povms, on_para_eq_constraint=on, seed_data=sd), gen.make_state(c_sys, ops["true_state"])
+        return [[("state", 0), ("povm", i)] for i in range(npv)]
     if ttype == "povmt":
-        return (M.StandardPovmt(states, ops["m_out"], on_para_eq_constraint=on, seed_data=sd),
-                gen.make_povm(c_sys, ops["true_povm"]))
+        return [[("state", i), ("povm", 0)] for i in range(ns)]
+    mid = "gate" if ttype == "qpt" else "mprocess"
+    return [[("state", i), (mid, 0), ("povm", k)] for i in range(ns) for k in range(npv)]
+
+
+def extra_tomo_options(rng, ttype, ops, case):
+    """non-default constructor options (never in case 0); is_physicality_required=True is rejected by the library
+    itself (the all-zero template is not physical) and is not used"""
+    o = {}
+    if case == 0:
+        return o
+    if rng.random() < 1 / 3:
+        o["is_estimation_object"] = True
+    if rng.random() < 1 / 3:
+        o["eps_proj_physical"] = 1e-5
+    if rng.random() < 1 / 3:
+        o["eps_truncate_imaginary_part"] = 1e-6
+    if rng.random() < 1 / 3:
+        sch = all_schedules(ttype, ops)
+        sch = [sch[int(k)] for k in rng.permutation(len(sch))]
+        if len(sch) > 1 and rng.random() < 0.5:
+            sch = sch[:-1]
+        o["schedules"] = sch
+    return o
+
+
+def make_true(ttype, c_sys, ops):
+    if ttype == "qst":
+        return gen.make_state(c_sys, ops["true_state"])
+    if ttype == "povmt":
+        return gen.make_povm(c_sys, ops["true_povm"])
     if ttype == "qpt":
-        return M.StandardQpt(states, povms, on_para_eq_constraint=on, seed_data=sd), gen.make_gate(c_sys, kraus=ops["true_gate"])
-    return (M.StandardQmpt(states, povms, ops["m_mp"], on_para_eq_constraint=on, seed_data=sd),
-            gen.make_mprocess(c_sys, kraus_sets=ops["true_mprocess"]))
+        return gen.make_gate(c_sys, kraus=ops["true_gate"])
+    return gen.make_mprocess(c_sys, kraus_sets=ops["true_mprocess"])
+
+
+def construct_tomo(M, ttype, c_sys, ops, opts, rng=None):
+    """tomography of the testers in ops with the constructor options opts; with rng every second tester is reached
+    through copy() (provenance)"""
+    opts = dict(opts)
+    if "schedules" in opts:
+        opts["schedules"] = [list(x) for x in opts["schedules"]]
+    states = [gen.make_state(c_sys, r) for r in ops["states"]]
+    povms = [gen.make_povm(c_sys, ms) for ms in ops["povms"]]
+    if rng is not None:
+        states = [x.copy() if rng.random() < 0.5 else x for x in states]
+        povms = [x.copy() if rng.random() < 0.5 else x for x in povms]
+    if ttype == "qst":
+        return M.StandardQst(povms, **opts)
+    if ttype == "povmt":
+        return M.StandardPovmt(states, ops["m_out"], **opts)
+    if ttype == "qpt":
+        return M.StandardQpt(states, povms, **opts)
+    return M.StandardQmpt(states, povms, ops["m_mp"], **opts)
+
+
+def judge_tomo_distribution(ctx, J, ttype, cname, tomo, true, ops, structured, s, step=None):
+    """one big multinomial draw per schedule against the Born rule of the reference model + structural zeros"""
+    sfx = f":{step}" if step else ""
+    base, N = f"{cname}.generate_empi_dists", DRAWS_DIST
+    schedules = [list(map(tuple, sc)) for sc in tomo.experiment.schedules]
+    ok, r = run_call(ctx, base, lambda sg: tomo.generate_empi_dists(true, N, sg), s, sfx=sfx)
+    if not (ok and isinstance(r, list) and len(r) == len(schedules)):
+        return
+    for sc, t in zip(schedules, r):
+        why, c = counts_of(t[0], t[1]) if isinstance(t, tuple) and len(t) == 2 else ("bad", None)
+        if why is not None:
+            ctx.truth("tomo.outcome-count", False, key=f"{base}:number-of-outcomes-differs-from-reference{sfx}",
+                      info={"got": None, "reference": len(ref_probs(ttype, sc, ops)[0])})
+            continue
+        judge_counts(ctx, J, base, sfx, c, ref_probs(ttype, sc, ops), N, structured)
+
+
+def tomo_calls(t, obj, j):
+    cname = type(t).__name__
+    return {f"{cname}.generate_empi_dist": lambda sg: t.generate_empi_dist(j, obj, 10 ** 5, sg),
+            f"{cname}.generate_empi_dists": lambda sg: t.generate_empi_dists(obj, 10 ** 4, sg),
+            f"{cname}.generate_empi_dists_sequence": lambda sg: t.generate_empi_dists_sequence(obj, [100, 10 ** 4, 10 ** 6], sg)}
+
+
+def hist_tomo(ctx, hs, J, M, rng, ttype, cname, c_sys, ops, opts, tomo, true, structured, siblings=True):
+    """one tomography object through: another true object and other requests in between, the true object through
+    copy(), a fresh twin (same testers, same options), a sibling of the same class / sizes / options with other
+    testers asked in turn"""
+    s = pick_seed(rng)
+    keep = Retained(ctx)
+    n_sched = len(tomo.experiment.schedules)
+    j = int(rng.integers(0, n_sched))
+    info = {"type": ttype, "structured": structured, "seed": s, "schedule_index": j,
+            "options": {k: (v if k != "schedules" else "custom") for k, v in opts.items()}}
+
+    def out(t, o):
+        return outputs(ctx, tomo_calls(t, o, j), s)
+
+    base = out(tomo, true)
+    keep.keep_all(base)
+    # (a) another true object of the same kind and size, other requests, reset_seed in between
+    ops_b = rival_ops(rng, ops, testers=False)
+    with hs.paused():
+        ok, true2 = ctx.attempt(make_true, ttype, c_sys, ops_b)
+    if ok:
+        judge_tomo_distribution(ctx, J, ttype, cname, tomo, true2, ops_b, structured, s, "second-true-object")
+        ctx.attempt(tomo.generate_empi_dist, (j + 1) % n_sched, true2, 50, None)
+        ctx.attempt(tomo.generate_empi_dists_sequence, true2, [10, 100], np.random.Generator(np.random.PCG64(int(rng.integers(0, 2 ** 31)))))
+    ctx.attempt(tomo.reset_seed, int(rng.integers(1, 2 ** 31)))
+    ctx.attempt(tomo.generate_empi_dists, true, 10, None)
+    compare_outputs(ctx, out(tomo, true), base, "re-used-object", info=info)
+    # (b) the true object reached through copy()
+    ok, tc = ctx.attempt(true.copy)
+    if ok:
+        compare_outputs(ctx, out(tomo, tc), base, "true-object-via-copy", what="output-differs-from-original", info=info)
+    # (b') tomography and true object through a pickle round trip (the library pickles tomographies itself: workers of
+    # the parallel simulation flow, SimulationResult.to_pickle)
+    ok, clone = ctx.attempt(lambda: pickle.loads(pickle.dumps((tomo, true))))
+    if ok:
+        compare_outputs(ctx, out(clone[0], clone[1]), base, "via-pickle", what="output-differs-from-original", info=info)
+    else:
+        ctx.count("history-step:pickle-raised")
+    if siblings:
+        # (c) a fresh tomography of the same testers and options
+        with hs.paused():
+            ok, twin = ctx.attempt(construct_tomo, M, ttype, c_sys, ops, opts)
+        if ok:
+            compare_outputs(ctx, out(twin, true), base, "fresh-twin", what="re-used-object-differs-from-fresh-object", info=info)
+        else:
+            ctx.count("history-step:twin-construction-failed")
+        # (d) a sibling: same class, sizes and options, other testers (every second one through copy()), asked in turn
+        ops2 = rival_ops(rng, ops, true=False)
+        with hs.paused():
+            ok, rival = ctx.attempt(construct_tomo, M, ttype, c_sys, ops2, opts, rng)
+        if ok:
+            rb = out(rival, true)
+            keep.keep_all(rb)
+            judge_tomo_distribution(ctx, J, ttype, cname, rival, true, ops2, structured, s, "sibling-tomography")
+            compare_outputs(ctx, out(tomo, true), base, "interleaved-with-sibling", info=info)
+            compare_outputs(ctx, out(rival, true), rb, "sibling:interleaved-with-first", info=info)
+            judge_tomo_distribution(ctx, J, ttype, cname, tomo, true, ops, structured, s, "interleaved-with-sibling")
+        else:
+            ctx.count("history-step:sibling-construction-failed")
+    keep.reread()
+
+
+def build_tomo(M, ttype, c_sys, ops, rng, extra=None):
+    """(tomography, true object, constructor options); rng draws the options of the ordinary workload, extra holds
+    the non-default options of the history steps"""
+    opts = tomo_options(rng)
+    opts.update(extra or {})
+    return construct_tomo(M, ttype, c_sys, ops, opts), make_true(ttype, c_sys, ops), opts
 
 
 def shard_tomo(ctx, hs, J, M):
@@ -1333,13 +2087,17 @@ def shard_tomo(ctx, hs, J, M):
         rng = ctx.rng()
         structured = i % 2 == 0
         ops = make_ops(rng, d, structured)
+        hrng = ctx.rng(H_RNG)
+        extra = extra_tomo_options(hrng, ttype, ops, i)
         with hs.paused():
-            ok, built = ctx.attempt(build_tomo, M, ttype, c_sys, ops, rng)
+            ok, built = ctx.attempt(build_tomo, M, ttype, c_sys, ops, rng, extra)
         if not ok:
             ctx.count(f"tomo.construction-failed:{type(built).__name__}")
             ctx.note(f"tomography construction failed: {ttype} {shape}: {built!r}"[:300])
             continue
-        tomo, true = built
+        tomo, true, opts = built
+        for k in extra:
+            ctx.count(f"tomography-option:{k}")
         schedules = [list(map(tuple, s)) for s in tomo._experiment.schedules]
         n_sched = len(schedules)
         if i < 2:
@@ -1371,26 +2129,10 @@ def shard_tomo(ctx, hs, J, M):
             coll = log10_collision_counts([(n, q) for q in probs0 for n in nsq])
         acts = history_check(ctx, name, call, rng, M, coll, info={"type": ttype, "shape": shape, "structured": structured})
         # distribution + structural zeros: one big multinomial draw per schedule
-        N = DRAWS_DIST
-        ok, r = run_call(ctx, f"{cname}.generate_empi_dists", lambda sg: tomo.generate_empi_dists(true, N, sg), s)
-        if ok and isinstance(r, list) and len(r) == n_sched:
-            for sc, t in zip(schedules, r):
-                why, c = counts_of(t[0], t[1]) if isinstance(t, tuple) and len(t) == 2 else ("bad", None)
-                cands = [q for q in ref_probs(ttype, sc, ops) if c is not None and len(q) == len(c)]
-                if why is not None or not cands:
-                    ctx.truth("tomo.outcome-count", False, key=f"{cname}.generate_empi_dists:number-of-outcomes-differs-from-reference",
-                              info={"got": None if c is None else len(c), "reference": len(ref_probs(ttype, sc, ops)[0])})
-                    continue
-                ctx.truth("tomo.outcome-count", True)
-                q = min(cands, key=lambda q: float(np.sum(np.abs(c / N - q))))
-                q = np.clip(q, 0.0, None)
-                J.distribution(f"distribution:{cname}.generate_empi_dists", c, q, N)
-                if structured:
-                    zero = q <= 1e-14
-                    if np.any(zero):
-                        ctx.truth("tomo.structural-zero", int(c[zero].sum()) == 0, key=f"{cname}.generate_empi_dists:structurally-zero-outcome-counted",
-                                  info={"reference": q, "counts": c})
-        ctx.nontrivial("tomo", ttype, shape, structured, np.hstack([np.ravel(x) for x in ops["states"]]), s, acts)
+        judge_tomo_distribution(ctx, J, ttype, cname, tomo, true, ops, structured, s)
+        # history steps: the same tomography used again (other true object, copy(), fresh twin, sibling in turn)
+        hist_tomo(ctx, hs, J, M, hrng, ttype, cname, c_sys, ops, opts, tomo, true, structured)
+        ctx.nontrivial("tomo", ttype, shape, structured, np.hstack([np.ravel(x) for x in ops["states"]]), s, acts, sorted(extra))
     ctx.extra["max_z"] = J.max_z
     ctx.extra["max_chi2_ratio"] = J.max_chi_ratio
     hs.require([f"{cname}.generate_empi_dist", f"{cname}.generate_empi_dists", f"{cname}.generate_empi_dists_sequence",
@@ -1500,6 +2242,9 @@ def shard_exp(ctx, hs, J, M):
                 if structured and np.any(q <= 1e-14):
                     ctx.truth("tomo.structural-zero", int(c[q <= 1e-14].sum()) == 0,
                               key="Experiment.generate_data:structurally-zero-outcome-generated", info={"reference": q, "counts": c})
+        # history steps: the same Experiment used again (other requests, copy(), sibling, setters, set back)
+        hist_exp(ctx, hs, J, M, ctx.rng(H_RNG), c_sys, ops, {"states": states, "povms": povms, "gates": [gate], "mprocesses": [mp]},
+                 exp, schedules, structured, j)
         ctx.nontrivial("exp", shape, structured, schedules, np.hstack([np.ravel(x) for x in ops["states"]]), s, acts)
     ctx.extra["max_z"] = J.max_z
     ctx.extra["max_chi2_ratio"] = J.max_chi_ratio
